@@ -59,13 +59,16 @@ class SearchTerms:
                     safe_term = "{0}{1}{0}".format(delim, self.term)
                     break
         else:
-            # Replace unescaped spaces with escaped spaces
-            safe_term = r"\ ".join(
-                list(map(
-                    lambda ele: ele.replace(" ", r"\ ")
-                    , self.term.split(r"\ ")
-                ))
-            )
+            # Replace unescaped spaces and search operator symbols with
+            # escaped ones; a term which was demarcated by quotes would
+            # otherwise re-parse as a different search expression.
+            safe_term = self.term
+            for symbol in [" ", "=", "^", "$", "%", "!", ">", "<", "~"]:
+                escaped_symbol = "\\" + symbol
+                safe_term = escaped_symbol.join([
+                    ele.replace(symbol, escaped_symbol)
+                    for ele in safe_term.split(escaped_symbol)
+                ])
 
         return (
             "["
